@@ -92,11 +92,11 @@ def run(ctx):
         ctx.violation("harness c15 does not compile against the current tree", {"kind": "tie-broken", "correspondence": "harness/c15.cpp", "log": out[-3000:]}, nofail=True)
         return
     quick = ctx.tier == "quick"
-    n_hist = 3000 if quick else 120000
-    n_sl = 20000 if quick else 400000
+    n_hist = 3000 if quick else 1500000
+    n_sl = 20000 if quick else 4000000
     corr = {}
     found_input = False
-    for stream, n in (("strtree", n_hist), ("strslices", n_sl), ("otheridx", 20000 if quick else 600000)):
+    for stream, n in (("strtree", n_hist), ("strslices", n_sl), ("otheridx", 20000 if quick else 6000000)):
         r = verif.run_stream(exe, stream, ctx.seed, n, ctx.work, shards=min(verif.NPROC, 8))
         corr[stream] = {"cases": r["cases"], "disagreements": len(r["disagreements"]) + r.get("more_disagreements", 0),
                         "distribution": r["stats"]}
